@@ -278,6 +278,14 @@ pub fn run(cx: &mut Ctx) {
             }
         }
         check_etc(c, true, 64, 64, &p, "alpha nibble x position");
+        // uniform alpha planes (all sixteen nibbles equal), incl. fully transparent and fully opaque
+        let mut p = Vec::new();
+        for v in 0..16u64 {
+            let a: u64 = 0x1111_1111_1111_1111u64.wrapping_mul(v);
+            p.extend_from_slice(&a.to_le_bytes());
+            p.extend_from_slice(&pixels::etc1_make_block(v % 2 == 0, v % 3 == 0, (v % 8) as u8, 5, [0x60 | (v as u8 & 7), 0x98, 0x38], 0x0F0F, 0x00FF));
+        }
+        check_etc(c, true, 32, 8, &p, "uniform alpha planes");
     });
     // ---- RGB5A3: all 65536 values through ColorFormat::decode
     cx.case("rgb5a3_all_values", |c| {
